@@ -106,6 +106,7 @@ package cache
 // scratch); a failed Commit drops the cached snapshot; the wrapper's mutex is released on every path.
 //@ func (*withSnapshot).Append
 //@   props C10 C18
+//@   opt locks
 //@   requires ws != nil && !sync.mheld[&ws.mu]
 //@   let had = old(ws.snap) != nil
 //@   let c0 = old(dag.applyCount)
@@ -114,12 +115,14 @@ package cache
 //@   ensures [lock-balanced] forall m *sync.Mutex :: { sync.mheld[m] } sync.mheld[m] == old(sync.mheld[m])
 //@ func (*withSnapshot).Commit
 //@   props C10 C18
+//@   opt locks
 //@   requires ws != nil && !sync.mheld[&ws.mu]
 //@   ensures [failed-commit-drops-snapshot] result != nil ==> ws.snap == nil
 //@   ensures [commit-keeps-snapshot] result == nil ==> ws.snap == old(ws.snap)
 //@   ensures [lock-balanced] forall m *sync.Mutex :: { sync.mheld[m] } sync.mheld[m] == old(sync.mheld[m])
 //@ func (*withSnapshot).Compile
 //@   props C10 C18
+//@   opt locks
 //@   requires ws != nil && !sync.mheld[&ws.mu]
 //@   ensures [cached-after] ws.snap != nil && (old(ws.snap) != nil ==> ws.snap == old(ws.snap))
 //@   ensures [lock-balanced] forall m *sync.Mutex :: { sync.mheld[m] } sync.mheld[m] == old(sync.mheld[m])
